@@ -57,6 +57,9 @@ def all_configs(tier="quick"):
   if tier == "quick":
     for x64, mode, graft in itertools.product([True, False], ["jit", "pmapq", "sharded"], [4, 6]):
       out.append({"x64": x64, "mode": mode, "thr": 0.1, "eps": 1e-6, "eigh": False, "interval": 1, "graft": graft})
+  # generate_training_metrics=False: the errors are not observable, the gate must work all the same
+  for x64, mode, interval in itertools.product([True, False], ["jit", "pmapq", "sharded"], [1, 2]):
+    out.append({"x64": x64, "mode": mode, "thr": 0.1, "eps": 1e-6, "eigh": False, "interval": interval, "nm": True})
   # a leaf with 1600 entries: moderate (1e12) gradients have a norm above 3.4e13, where quotients by the 1e-25 guard overflow float32
   for x64, mode, eigh, eps in itertools.product([True, False], ["jit", "pmapq", "sharded"], [False, True], [0.0, 1e-6]):
     out.append({"x64": x64, "mode": mode, "thr": 0.1, "eps": eps, "eigh": eigh, "interval": 2, "tree": "large"})
@@ -120,6 +123,8 @@ def make_runner(c):
              inverse_failure_threshold=c["thr"], matrix_epsilon=c["eps"], eigh=c["eigh"],
              preconditioning_compute_steps=c["interval"], learning_rate=0.1,
              beta2=c.get("beta2", 0.999))
+  if c.get("nm"):
+    cfg["generate_training_metrics"] = False
   rep = c.get("rep")
   if rep:
     cfg["block_size"] = 16
@@ -158,8 +163,10 @@ def check_step(c, word, t, pre, post, un, rec):
       P = b["precs"][i]
       if not np.all(np.isfinite(P)):
         return ("non-finite-preconditioner:" + c["mode"], "stored preconditioner %s[%d] holds a non-finite value after word %s" % (k, i, "-".join(word)))
-      err = float(m["errors"][i])
-      if refresh:
+      nm = bool(c.get("nm"))
+      # without training metrics the error of an attempt is unobservable: an installed root is then held to the threshold itself
+      err = thr if nm else float(m["errors"][i])
+      if refresh and not nm:
         if err != err:
           rec.count("rejects_by_nan")
           rejected_here = True
@@ -175,11 +182,12 @@ def check_step(c, word, t, pre, post, un, rec):
         from vmon.refmodels import ds_ref
         cfgr = ds_ref.Cfg(matrix_epsilon=c["eps"], relative_matrix_epsilon=True, eigh=c["eigh"], inverse_failure_threshold=thr)
         S = b["stats"][i]
-        if S.shape[0] == S.shape[1] and np.all(np.isfinite(S)) and c["eps"] > 0 and err == err and err < min(thr, 0.1):
+        if S.shape[0] == S.shape[1] and np.all(np.isfinite(S)) and c["eps"] > 0 and err == err and (err < min(thr, 0.1) or nm):
           shape_k = tuple(tree[k])
           pexp = 2 * len(shape_k)
           msize = max(max(tuple(sh)) for sh in tree.values())
-          msg = c02.root_check(cfgr, S, P, err, float(m["retries"][i]), float(m["max_ev"][i]) if not c["eigh"] else None, pexp,
+          msg = c02.root_check(cfgr, S, P, err, 1.0 if nm else float(m["retries"][i]),
+                               None if (c["eigh"] or nm) else float(m["max_ev"][i]), pexp,
                                max(x.shape[0] for kk in tree for x in post["params"][kk]["stats"]), False, rec)
           rec.count("installed_roots_residual_checked")
           if msg:
@@ -188,7 +196,7 @@ def check_step(c, word, t, pre, post, un, rec):
         rec.count("preconditioner_changes")
         if not refresh:
           return ("changed-off-refresh:" + c["mode"], "preconditioner %s[%d] changed on non-refresh step %d (word %s)" % (k, i, t, "-".join(word)))
-        if not (err == err and np.isfinite(err) and err < thr):
+        if not nm and not (err == err and np.isfinite(err) and err < thr):
           return ("unverified-root-installed:" + c["mode"], "preconditioner %s[%d] replaced at step %d although reported error %r is not finite and < threshold %g (word %s)" % (k, i, t, err, thr, "-".join(word)))
   if all(l in MODERATE for l in word):
     rec.count("moderate_update_checked")
